@@ -6,7 +6,6 @@ package netkit
 
 import (
 	"bytes"
-	"sync/atomic"
 	"encoding/binary"
 	"errors"
 	"fmt"
@@ -15,6 +14,7 @@ import (
 	"os"
 	"path/filepath"
 	"sync"
+	"sync/atomic"
 	"time"
 
 	"github.com/lugu/qiloop/bus"
